@@ -31,15 +31,25 @@ def main(argv=None) -> int:
         mod = importlib.import_module(f"bibcheck.props.{prop.lower()}")
     except ModuleNotFoundError:
         return analysis_error(prop, args.tier, f"no check implemented for {prop}")
+    rep = None
     try:
         program = Program(args.repo)
         rep = Report(prop, args.tier, args.repo)
         mod.run(program, rep)
         return finish(rep)
     except AnalysisError as e:
+        # a rule that could not be evaluated does not erase violations other rules have already established
+        if rep is not None and rep.findings:
+            print(f"NOTE: a later rule could not be evaluated ({e}); reporting the violations found before it")
+            rc = finish(rep)
+            return rc if rc == 1 else analysis_error(prop, args.tier, str(e))
         return analysis_error(prop, args.tier, str(e))
     except Exception:
         traceback.print_exc(file=sys.stdout)
+        if rep is not None and rep.findings:
+            rc = finish(rep)
+            if rc == 1:
+                return rc
         return analysis_error(prop, args.tier, "analyser crashed (traceback above)")
 
 
